@@ -291,6 +291,8 @@ def case_history(ctx, cfg):
     _ = ctx.call(PC.contains, G.Point(np.array(fpt(Q[0]))))
     _ = ctx.call(lambda: (PC.edges, PC.area, PC.vertices))
     derived = [
+        ("pc itself (after edges / area / vertices were read)", lambda: PC, [0, 1]),
+        ("pc.copy()", lambda: PC.copy(), [0, 1]),
         ("pc[0]", lambda: PC[0], [0]),
         ("pc[1]", lambda: PC[1], [1]),
         ("pc[-1]", lambda: PC[-1], [1]),
